@@ -285,3 +285,22 @@ def check(ctx: t.Any, prop: str) -> None:
                           f"{row['op']} ({row['flavour']}) with peer fault {row['kind']} at step {row['step']} (cut {row.get('cut')}): result {row['res']} {row.get('exc', '')}, "
                           f"then the same call on a healthy peer with the same cache: {row['retry']} {row.get('retryExc', '')}")
     ctx.assume("peer faults are injected at the reference DC / scripted transport; 'promptly' = within the 25 s guard of one API call")
+
+
+def selftest(ctx: t.Any) -> None:
+    """Binding demonstration for TraceFaults: observed rows are accepted; the same rows with one recorded field
+    corrupted (result of the faulty call, result of the second call, connection left open) are rejected."""
+    from .tracecheck import selftest_expect_reject
+
+    scs = [dict(id=i, op=op, flavour=fl, step=step, kind=kind, cut=cut, seed=77 + i, hash="SHA256", dns=False)
+           for i, (op, fl, step, kind, cut) in enumerate([("unprotect", "sync", "bind2", "eof", 17), ("protect", "async", "eptmap", "status", 0),
+                                                          ("unprotect", "async", "alter", "nak", 0), ("protect", "sync", "getkey", "fault", 0)])]
+    good = run_scenarios(scs)
+    bad = []
+    for k, row in enumerate(good):
+        for fld, val in (("res", "ok"), ("retry", "error"), ("leaked", 1), ("res", "hang")):
+            r2 = dict(row)
+            r2[fld] = val
+            r2["id"] = 100 + len(bad)
+            bad.append(r2)
+    selftest_expect_reject(ctx, "TraceFaults", "TraceFaults.cfg", good, bad, "faults")
